@@ -4,6 +4,7 @@ import (
 	"context"
 	"database/sql"
 	"fmt"
+	"runtime"
 	"strings"
 	"sync"
 	"testing"
@@ -71,7 +72,7 @@ func TestC07WitnessColdRelatedFirstUse(t *testing.T) {
 			}(g)
 		}
 		close(start)
-		wg.Wait()
+		waitOrDeadlock(c, &wg, d)
 		d.Close()
 		for g, e := range errs {
 			if e != "" {
@@ -214,7 +215,7 @@ func TestC07WitnessOwnerFirstUseTargetInUse(t *testing.T) {
 			}(g)
 		}
 		close(start)
-		wg.Wait()
+		waitOrDeadlock(c, &wg, d)
 		d.Close()
 		for g, e := range errs {
 			if e != "" {
@@ -242,4 +243,79 @@ func seedOwner(m, g, k int) interface{} {
 		x.Name = name
 	}
 	return v
+}
+
+// waitOrDeadlock waits for the witness's goroutines under the same watchdog as the generated cases:
+// a deadlock ends the process with a failure instead of hanging the test.
+func waitOrDeadlock(c *Case, wg *sync.WaitGroup, d *caseDB) {
+	done := make(chan struct{})
+	go func() { wg.Wait(); close(done) }()
+	if st := supervise(c, "witness", done, func() { _ = d.mem.SQL.Close() }); st != "" {
+		fmt.Println("C07 violated: witness goroutines were blocked and ended only after the pool was closed\n" + st)
+	}
+}
+
+// TestC07WitnessOwnerFirstUseTargetWrite: the listed finding owner-first-use-target-written. Parcel
+// has a field without a column (`gorm:"-:all"`). Depot and Parcel are parsed and used before the
+// barrier. Then three goroutines create Parcel rows of their own (plain db.Create) while three others
+// make their first call - a Find - on Courier, Customs and Sorter; 120 fresh handles. Every call
+// returns what it returns alone, but every create/update/delete of a model looks the name of each of
+// its fields without a column up in the model's Relationships.Relations map
+// (Statement.SelectAndOmitColumns, statement.go:753, no lock) while the parse of an owner type writes
+// the reverse relation into that map (schema.(*Schema).parseRelation, relationship.go:106): a data
+// race. The test asserts the property (no race report), so it fails while the defect exists.
+func TestC07WitnessOwnerFirstUseTargetWrite(t *testing.T) {
+	if !raceEnabled {
+		t.Log("built without -race: only the results of the calls are checked")
+	}
+	before := raceReports()
+	c := &Case{G: 6, Warm: "one", WarmOne: mDepot}
+	for round := 0; round < 120; round++ {
+		c.SkipTx = round%2 == 0
+		d := openCase(c)
+		d.warm(c)
+		start := make(chan struct{})
+		errs := make([]string, c.G)
+		var wg sync.WaitGroup
+		for g := 0; g < c.G; g++ {
+			wg.Add(1)
+			go func(g int) {
+				defer wg.Done()
+				defer func() {
+					if p := recover(); p != nil {
+						errs[g] = fmt.Sprintf("panic: %v", p)
+					}
+				}()
+				<-start
+				if g%2 == 0 {
+					for k := 3; k <= 6; k++ {
+						want := "ok ra=1 " + render(build(mParcel, g, k, 0, k))
+						if res := exec(d.DB, g, Op{K: "create", M: mParcel, A: k, V: k}); res != want {
+							errs[g] = fmt.Sprintf("create Parcel returned %q, alone it returns %q", res, want)
+						}
+					}
+					return
+				}
+				for i := 0; i < round%4; i++ {
+					runtime.Gosched() // vary which side comes first
+				}
+				m := []int{mCourier, mCustoms, mSorter}[(g/2+round)%3]
+				want := fmt.Sprintf("ok ra=2 [%s %s]", render(seedOwner(m, g, 1)), render(seedOwner(m, g, 2)))
+				if res := exec(d.DB, g, Op{K: "find", M: m}); res != want {
+					errs[g] = fmt.Sprintf("first Find on %s returned %q, alone it returns %q", modelNames[m], res, want)
+				}
+			}(g)
+		}
+		close(start)
+		waitOrDeadlock(c, &wg, d)
+		d.Close()
+		for g, e := range errs {
+			if e != "" {
+				t.Errorf("C07 violated: round %d goroutine %d: %s", round, g, e)
+			}
+		}
+	}
+	if n := raceReports() - before; n > 0 {
+		t.Fatalf("C07 violated: %d data race report(s) while owner types of an already used target type were used for the first time and rows of the target type (which has a field without a column) were created (6 goroutines x 120 handles; reports on stderr)", n)
+	}
 }
